@@ -47,6 +47,7 @@ type scriptedConn struct {
 	serial     bool
 	closed     bool
 	closedErr  bool // i/o errors of the script are reported as wrapping net.ErrClosed
+	quietStall bool // a silent serial line is reported as (0, nil) instead of a deadline error
 }
 
 func (c *scriptedConn) Write(p []byte) (int, error) {
@@ -85,6 +86,9 @@ func (c *scriptedConn) Read(p []byte) (int, error) {
 			time.Sleep(300 * time.Microsecond)
 		} else if d := time.Until(dl); d > 0 {
 			time.Sleep(d)
+		}
+		if c.serial && c.quietStall {
+			return 0, nil // a serial library that reports its read timeout as "nothing read, no error"
 		}
 		return 0, os.ErrDeadlineExceeded
 	}
@@ -345,17 +349,17 @@ func newNetClient(kind string, conf modbus.ClientConfig, variant int) *modbus.Cl
 // The client's total read timeout is real time. A call that ends in that timeout although the transport still had
 // scripted events to deliver was not given the CPU to read them in time (the scripted reads themselves never wait):
 // it says nothing about the client and is repeated with a longer timeout.
-func runDo(kind string, hooks bool, flusher string, reqSpec string, script string) (string, string, string) {
-	o, l, c, early := runDoOnce(kind, hooks, flusher, reqSpec, script, 1)
+func runDo(kind string, hooks bool, flusher string, reqSpec string, script string, reply []byte) (string, string, string) {
+	o, l, c, early := runDoOnce(kind, hooks, flusher, reqSpec, script, 1, reply)
 	for _, scale := range []int{8, 64} {
 		if !early {
 			break
 		}
-		o, l, c, early = runDoOnce(kind, hooks, flusher, reqSpec, script, scale)
+		o, l, c, early = runDoOnce(kind, hooks, flusher, reqSpec, script, scale, reply)
 	}
 	if kind == "s" && o == "err client:timeout" && variantOf("zero"+reqSpec+script)%4 == 0 {
 		// a read timeout of zero (or less) is a legal option value: the stalled call still ends, and at once
-		if po, _, _, _ := runDoOnce(kind, hooks, flusher, reqSpec, script, -1); strings.HasPrefix(po, "HANG") {
+		if po, _, _, _ := runDoOnce(kind, hooks, flusher, reqSpec, script, -1, reply); strings.HasPrefix(po, "HANG") {
 			return po, l, c
 		}
 	}
@@ -367,7 +371,7 @@ func runDo(kind string, hooks bool, flusher string, reqSpec string, script strin
 		po := ""
 		for ; n < 3; n++ {
 			var pc string
-			po, _, pc, _ = runDoOnce(kind, hooks, flusher, reqSpec, script, 0)
+			po, _, pc, _ = runDoOnce(kind, hooks, flusher, reqSpec, script, 0, reply)
 			if !strings.Contains(po, "client:timeout") || strings.Contains(pc, ",r:") {
 				break
 			}
@@ -379,7 +383,7 @@ func runDo(kind string, hooks bool, flusher string, reqSpec string, script strin
 	return o, l, c
 }
 
-func runDoOnce(kind string, hooks bool, flusher string, reqSpec string, script string, scale int) (string, string, string, bool) {
+func runDoOnce(kind string, hooks bool, flusher string, reqSpec string, script string, scale int, reply []byte) (string, string, string, bool) {
 	evs, writeFails, preCancel := parseScript(script)
 	ctx, cancel := context.WithCancel(context.Background())
 	defer cancel()
@@ -398,7 +402,7 @@ func runDoOnce(kind string, hooks bool, flusher string, reqSpec string, script s
 		cancel()
 	}
 	conn := &scriptedConn{script: evs, writeFails: writeFails, cancel: cancel, serial: kind == "s",
-		closedErr: variantOf("x"+reqSpec+script)%2 == 1}
+		closedErr: variantOf("x"+reqSpec+script)%2 == 1, quietStall: variantOf("q"+reqSpec+script)%2 == 1}
 	rec := &hookRec{}
 	failedConnect := strings.HasPrefix(reqSpec, "ncf:")
 	notConnected := strings.HasPrefix(reqSpec, "nc:") || failedConnect
@@ -476,6 +480,37 @@ func runDoOnce(kind string, hooks bool, flusher string, reqSpec string, script s
 	secondCall := ""
 	followUp := func(again func() (packet.Response, error)) {
 		takeSnap()
+		if err != nil && scale > 0 && hooks && len(reply) > 0 && clientErrStr(err) == "err ctx" {
+			// the call was abandoned by its caller; the client is used again: the hook still hears of every read the
+			// transport serves (nothing is read on the quiet)
+			conn.mu.Lock()
+			conn.script = []readEv{{kind: "d", data: append([]byte{}, reply...)}, {kind: "x"}}
+			conn.pending = nil
+			servedBefore, stalledBefore := len(conn.served), conn.stalled
+			conn.mu.Unlock()
+			rec.mu.Lock()
+			logBefore := len(rec.log)
+			rec.mu.Unlock()
+			func() {
+				defer func() { _ = recover() }()
+				_, _ = again()
+			}()
+			conn.mu.Lock()
+			transportReads := len(conn.served) - servedBefore + conn.stalled - stalledBefore
+			conn.mu.Unlock()
+			hookReads := 0
+			rec.mu.Lock()
+			for _, l := range rec.log[logBefore:] {
+				if strings.HasPrefix(l, "r:") {
+					hookReads++
+				}
+			}
+			rec.mu.Unlock()
+			if hookReads != transportReads {
+				secondCall = fmt.Sprintf("NEXT-CALL-READS-%d-HOOK-HEARD-%d", transportReads, hookReads)
+			}
+			return
+		}
 		if err != nil || isNilValue(resp) || scale <= 0 {
 			return
 		}
@@ -515,6 +550,33 @@ func runDoOnce(kind string, hooks bool, flusher string, reqSpec string, script s
 		for _, ev := range evs {
 			for _, b := range ev.data {
 				inv = append(inv, ^b)
+			}
+		}
+		if kind != "t" {
+			// the same reply once more with one payload bit flipped and its old trailer: not the reply of a moment ago
+			var all []byte
+			for _, ev := range evs {
+				all = append(all, ev.data...)
+			}
+			if len(all) >= 6 {
+				all[len(all)/2-1] ^= 0x40
+				conn.mu.Lock()
+				conn.script = []readEv{{kind: "d", data: all}, {kind: "x"}}
+				conn.pending = nil
+				conn.mu.Unlock()
+				var r3 packet.Response
+				var e3 error
+				func() {
+					defer func() {
+						if recover() != nil {
+							e3 = errors.New("PANIC")
+						}
+					}()
+					r3, e3 = again()
+				}()
+				if e3 == nil && !isNilValue(r3) {
+					secondCall = "CORRUPTED-REPEAT-OF-THE-LAST-REPLY-ACCEPTED"
+				}
 			}
 		}
 		conn.mu.Lock()
@@ -641,7 +703,7 @@ func runDoOnce(kind string, hooks bool, flusher string, reqSpec string, script s
 		cnt := 0
 		out := []string{}
 		for i := len(log) - 1; i >= 0; i-- {
-			if cnt < stalled && strings.HasPrefix(log[i], "r:-:0:timeout") {
+			if cnt < stalled && (strings.HasPrefix(log[i], "r:-:0:timeout") || (conn.quietStall && conn.serial && strings.HasPrefix(log[i], "r:-:0:nil"))) {
 				cnt++
 				continue
 			}
@@ -669,14 +731,18 @@ func runDoOnce(kind string, hooks bool, flusher string, reqSpec string, script s
 
 func execDo(ts []string) string {
 	kind, hooks, flusher, reqSpec, script := ts[1], ts[2] == "1", ts[3], ts[4], ts[6]
-	o1, l1, c1 := runDo(kind, true, flusher, reqSpec, script)
+	reply := []byte(nil)
+	if ts[5] != "-" {
+		reply = unhx(ts[5])
+	}
+	o1, l1, c1 := runDo(kind, true, flusher, reqSpec, script, reply)
 	if o1 == "NOREQ" {
 		return "NOREQ"
 	}
 	o2 := o1
 	if !strings.HasPrefix(o1, "HANG") {
 		// (a call that never returned is not repeated without hooks: each such run costs the whole watchdog time)
-		o2, _, _ = runDo(kind, false, flusher, reqSpec, script)
+		o2, _, _ = runDo(kind, false, flusher, reqSpec, script, reply)
 	}
 	if !hooks {
 		l1 = "-"
